@@ -339,12 +339,15 @@ pub fn mutants(p: &Parent) -> Vec<Mutant> {
     }
     // a jump to an undefined label that comes out of a macro: one use, and two uses of the same macro of
     // which only one names an undefined label (uses of one macro have the same positions inside their expansion)
-    for (k, uses) in [vec!["nowhere_m"], vec!["nowhere_m", "start"], vec!["start", "nowhere_m"], vec!["start", "nowhere_m", "start"]].iter().enumerate() {
+    // (the other uses name a label that is defined only further down, so that they too are recorded as not yet resolved)
+    for (k, uses) in [vec!["nowhere_m"], vec!["nowhere_m", "fwd_ok"], vec!["fwd_ok", "nowhere_m"], vec!["fwd_ok", "nowhere_m", "start"]].iter().enumerate() {
         let mut v = b.clone();
         let at = if k % 2 == 0 { p.live_pos } else { n };
         for (j, u) in uses.iter().enumerate() {
             v.insert((at + j).min(v.len()), format!("jmx({})", u));
         }
+        v.push("fwd_ok:".to_string());
+        v.push("nop".to_string());
         v.insert(first_code, format!("macro jmx(t) -> {} t <-", ["jmp", "jz", "loop", "jnbe"][k]));
         push("undefined-jump-target-via-macro", format!("macro jmx used with {:?}", uses), v, at + 1);
     }
